@@ -139,7 +139,7 @@ fn one_frame(v: &mut VideoState, vram: &Box<[u8]>, oam: &Box<[u8]>, mut batches:
 /// changed into `b` - only the registers whose value differs are rewritten,
 /// as a guest would - and frame 2 is returned. Whatever the renderer carries
 /// from one frame (or line) into the next must not show.
-pub fn render_then(a: &Scene, b: &Scene, rng: &mut Rng, batched: bool) -> Result<Vec<u8>, String> {
+pub fn render_then(a: &Scene, b: &Scene, rng: &mut Rng, batched: bool, lcd_cycle: bool) -> Result<Vec<u8>, String> {
   let mut v = VideoState::new();
   v.set_lcd_control(a.lcdc);
   v.set_scroll_x(a.scx);
@@ -152,6 +152,13 @@ pub fn render_then(a: &Scene, b: &Scene, rng: &mut Rng, batched: bool) -> Result
   let vram = a.vram.clone().into_boxed_slice();
   let oam = a.oam.clone().into_boxed_slice();
   one_frame(&mut v, &vram, &oam, if batched { Some(&mut *rng) } else { None })?;
+  if lcd_cycle {
+    // the display is switched off for a moment and on again, all inside vertical blank: the
+    // frame that follows is a full frame like any other
+    v.set_lcd_control(a.lcdc & 0x7f);
+    let _ = v.run_clock_cycles(ClockCycles(4 * (1 + rng.below(200) as usize)), &vram, &oam);
+    v.set_lcd_control(b.lcdc);
+  }
   if b.lcdc != a.lcdc {
     v.set_lcd_control(b.lcdc);
   }
@@ -381,6 +388,7 @@ pub fn run(ctx: &mut Ctx) {
   let mut win_pixels = 0u64;
   let mut second_frames = 0u64;
   let mut batched_runs = 0u64;
+  let mut lcd_cycles = 0u64;
   for i in 0..n {
     if !ctx.mine(i) {
       continue;
@@ -465,7 +473,11 @@ pub fn run(ctx: &mut Ctx) {
       if batched {
         batched_runs += 1;
       }
-      match render_then(&s, &s2, &mut rng, batched) {
+      let lcd_cycle = i % 5 == 2;
+      if lcd_cycle {
+        lcd_cycles += 1;
+      }
+      match render_then(&s, &s2, &mut rng, batched, lcd_cycle) {
         Ok(got2) => {
           second_frames += 1;
           pixels += 160 * 144;
@@ -501,6 +513,7 @@ pub fn run(ctx: &mut Ctx) {
   ctx.count("scenes-with-more-than-10-objects-on-a-line", over10);
   ctx.count("second-frames-after-a-change-in-vblank", second_frames);
   ctx.count("two-frame-runs-with-time-delivered-in-random-batches", batched_runs);
+  ctx.count("two-frame-runs-with-the-display-switched-off-and-on-in-between", lcd_cycles);
   ctx.count("reference-window-pixels", win_pixels);
   ctx.count("reference-object-pixels", obj_pixels);
 }
